@@ -19,5 +19,5 @@ one() {
 export -f one
 mkdir -p /tmp/bx
 if [ $# -gt 0 ]; then ids="$@"; else ids=$(ls /verif/benign | grep '^C'); fi
-echo $ids | tr ' ' '\n' | xargs -P 6 -I{} bash -c 'one {}' | sort
+echo $ids | tr ' ' '\n' | xargs -P 10 -I{} bash -c 'one {}' | sort
 git -C /repo worktree prune
